@@ -1,6 +1,8 @@
 import CJ.Drv.Loop
-/-! Driver for C06 (stub until the models are written). -/
+import CJ.Drv.Covert
+/-! Driver for C06: the covert-admission model. -/
 open CJ.Drv
 
 def main : IO Unit := runDriver fun
+  | "covert" :: args => Covert.handle args
   | _ => none
